@@ -134,7 +134,8 @@ Wire(d, m, copies) ==
 
 OpRec(d, lab, o, kind, k) == [dir |-> d, msg |-> lab, ord |-> o, kind |-> kind, k |-> k]
 
-Fragments(m, n) == [i \in 1..n |-> [m EXCEPT !.frag = i, !.nfrag = n]]
+Fragments(m, n) == [i \in 1..n |-> [m EXCEPT !.frag = i, !.nfrag = n,
+                                                 !.lo = ((i - 1) * Units) \div n, !.hi = (i * Units) \div n]]
 
 AdvApplicable(kind, m) ==
   \/ RewriteApplies(kind, m)
